@@ -1436,7 +1436,8 @@ class Array(ComplexModelBase):
 
     def __new__(cls, serializer, member_name=None, wrapped=True, **kwargs):
         if not wrapped:
-            if serializer.Attributes.max_occurs == 1:
+            if serializer.Attributes.max_occurs == 1 \
+                                               and 'max_occurs' not in kwargs:
                 kwargs['max_occurs'] = 'unbounded'
 
             return serializer.customize(**kwargs)
